@@ -202,7 +202,7 @@ def layout(prog: Dict[str, Any]) -> Dict[str, Any]:
             return "directly after the previous label"
         loc = [e for e in (".ORG symbol", ".ORG", "SECTION re-entry", "section start") if e in ev]
         st = [e for e in ev if e not in loc]
-        if len(st) > 2:
+        if len(st) > 1:
             st = ["several statements"]
         return "after " + " + ".join(loc + st)
 
@@ -228,10 +228,10 @@ def layout(prog: Dict[str, Any]) -> Dict[str, Any]:
             if "sym" in stmt:
                 tgt = labels.get(stmt["sym"].upper())
                 ptr[cur] = tgt["value"] if tgt else 0
-                events[cur].append(".ORG symbol")
+                events[cur] = [".ORG symbol"]  # the origin overrides whatever preceded it in this section
             else:
                 ptr[cur] = int(stmt["addr"])
-                events[cur].append(".ORG")
+                events[cur] = [".ORG"]
             if cur == "bss":
                 bss_rel = False
             recs.append({"idx": idx, "section": cur, "addr": ptr[cur], "size": 0, "emits": False, "loc": True})
@@ -519,6 +519,8 @@ def check_pair_variant(prog: Dict[str, Any]) -> List[Violation]:
     r1 = fresh_assemble(src_split)
     r2 = fresh_assemble(src_pair)
     if r1 != r2 and r1["ok"]:
+        if not r2["ok"] and r2["error"].startswith("Parsing failed"):
+            return []  # the grammar of the tree under test does not admit the one-line form: outside the domain
         if not r2["ok"]:
             symp = "one-line form rejected"
         elif r1["symbols"] != r2["symbols"]:
